@@ -28,15 +28,7 @@ def check(run):
     q = P + 'DHTVPermutationAlignment.calculate_mapping'
     fn = A.prog.func(q)
     g = A.graphs.get(fn)
-    feats = [e for e in g.events if e.kind == 'store' and not c14._root_is(e.term.args[0], c14.is_identity_columns)]
-    if not feats:
-        raise AnalysisError('DHTV: feature update vanished')
-    root = strip_views(feats[0].term.args[0])
-    while root.op in ('mu', 'store'):
-        root = strip_views(root.args[0])
-    alts = list(unwrap_gamma(root))
-    ok = bool(alts) and all(is_call_to(x, 'method:copy', 'numpy.copy') or call_parts(x)[0] == P + '_parameterized_vector_norm' for x in alts)
-    run.check(ok, 'PAIRED', 'DHTV: features are a fresh copy / normalised copy of the mask', fn.loc(), '', 'the working features alias the caller\'s mask', construct=f'PAIRED::{q}::features-copy')
+    c14.check_dhtv_copy(run, A)
     means = [e.term for e in g.events if e.kind == 'call' and is_call_to(e.term, 'numpy.mean')]
     okc = bool(means) and const_val(call_arg(means[0], None, 'axis')) == 1
     if okc:
